@@ -119,12 +119,17 @@ fn escaped_expectation_ascii(line: &[u8]) -> String {
 fn escaped_printable_unicode(bytes: &[u8]) -> String {
     let mut seq = [0; 4];
     if let Ok(s) = String::from_utf8(bytes.to_vec()) {
+        // once anything is escaped the rendering is read back as an escaped
+        // expression, in which a backslash must be escaped itself
+        let escapes_backslash = s.chars().any(|c| c.is_other());
         return s
             .chars()
             .map(|c| {
                 if c.is_other() {
                     let raw = c.encode_utf8(&mut seq).as_bytes();
                     escaped_printable_ascii(raw)
+                } else if c == '\\' && escapes_backslash {
+                    "\\\\".to_string()
                 } else {
                     c.to_string()
                 }
